@@ -445,11 +445,14 @@ class TimeTriggeredPlanValidator(engines.engine.Engine, mixins.PlanValidatorMixi
                 if instantiated_effect.kind == EffectKind.ASSIGN:
                     result[g_fluent] = se.evaluate(g_value, state=state)
                 else:
-                    f_value = (
-                        updates[g_fluent]
-                        if g_fluent in updates
-                        else state.get_value(g_fluent)
-                    )
+                    # the instances of a quantified effect that reach the same fluent
+                    # accumulate, as do the other effects applied at this instant
+                    if g_fluent in result:
+                        f_value = result[g_fluent]
+                    elif g_fluent in updates:
+                        f_value = updates[g_fluent]
+                    else:
+                        f_value = state.get_value(g_fluent)
                     if instantiated_effect.kind == EffectKind.DECREASE:
                         result[g_fluent] = se.evaluate(
                             em.Minus(f_value, g_value), state=state
